@@ -35,6 +35,8 @@ from vlib.symx import Sym
 
 from sasmodels import core, generate, kerneldll, custom, modelinfo
 
+NPDTYPE = {"double": np.dtype("float64"), "single": np.dtype("float32"),
+           "quad": np.dtype("longdouble")}
 VROOT = "/verif-virtual/c17"
 VDLL = VROOT + "/cache/compiled_models"
 NVER = 3
@@ -53,8 +55,13 @@ title = "verification plugin"
 description = "constant plus included C function"
 category = "shape-independent"
 parameters = [%(pars)s]
-source = ["vplug_lib.c"]
-c_code = 'const char vplug_mark_py[] = "VERIF_MARK_PY_%(k)d";'
+source = ["%(cname)s"]
+c_code = """
+const char vplug_mark_py[] = "VERIF_MARK_PY_%(k)d";
+#ifndef VPLUG_HAVE_CFUN
+static double vplug_cfun(double q) { return 0.0; }   /* the plugin's own include is missing */
+#endif
+"""
 Iq = """
     /* VERIF_MARK_PY_%(k)d */
     return %(expr)s;
@@ -68,15 +75,38 @@ def py_text(k):
     pars = _PAR_AMP if k < 2 else _PAR_AMP + ", " + _PAR_EXTRA
     expr = ["amp*(1.0 + vplug_cfun(q))", "amp*(2.0 + vplug_cfun(q))",
             "amp*(extra + vplug_cfun(q))"][k]
-    return _PY % {"k": k, "pars": pars, "expr": expr}
+    return _PY % {"k": k, "pars": pars, "expr": expr, "cname": c_include_name()}
+
+
+_CNAME = []
+
+
+def c_include_name():
+    """Relative name of the plugin's included C file: deliberately the name of a
+    file that also ships with sasmodels (a user's modified copy beside the plugin
+    must win over the shipped one)."""
+    if not _CNAME:
+        models = os.path.join(vlib.REPO, "sasmodels", "models")
+        cands = ["lib/polevl.c", "lib/sas_erf.c", "lib/sas_J0.c"]
+        libdir = os.path.join(models, "lib")
+        if os.path.isdir(libdir):
+            cands += ["lib/" + f for f in sorted(os.listdir(libdir)) if f.endswith(".c")]
+        for c in cands:
+            if os.path.exists(os.path.join(models, c)):
+                _CNAME.append(c)
+                break
+        else:
+            _CNAME.append("vplug_lib.c")
+    return _CNAME[0]
 
 
 def c_text(k):
-    return ("/* VERIF_MARK_C_%d */\n#ifndef VERIF_TPL_K\n#define VERIF_TPL_K 0.0\n#endif\n"
+    return ("/* VERIF_MARK_C_%d */\n#define VPLUG_HAVE_CFUN 1\n"
+            "#ifndef VERIF_TPL_K\n#define VERIF_TPL_K 0.0\n#endif\n"
             "const char vplug_mark_c[] = \"VERIF_MARK_C_%d\";\n"
             "#if FLOAT_SIZE == 4\nconst char vplug_mark_fs[] = \"VERIF_MARK_FS_4\";\n"
             "#elif FLOAT_SIZE == 8\nconst char vplug_mark_fs[] = \"VERIF_MARK_FS_8\";\n"
-            "#else\nconst char vplug_mark_fs[] = \"VERIF_MARK_FS_9\";\n#endif\n"
+            "#else\nconst char vplug_mark_fs[] = \"VERIF_MARK_FS_16\";\n#endif\n"
             "double vplug_cfun(double q);\n"
             "double vplug_cfun(double q) { return %d.0 + VERIF_TPL_K; }\n" % (k, k, 10 * (k + 1)))
 
@@ -121,7 +151,7 @@ def markers(text, files):
 class Pool:
     def __init__(self, data_path, plug_dir):
         self.paths = {"py": os.path.join(plug_dir, "vplug.py"),
-                      "c": os.path.join(plug_dir, "vplug_lib.c"),
+                      "c": os.path.join(plug_dir, *c_include_name().split("/")),
                       "hdr": os.path.join(data_path, "kernel_header.c"),
                       "iq": os.path.join(data_path, "kernel_iq.c")}
         with open(os.path.join(vlib.REPO, "sasmodels", "kernel_header.c")) as f:
@@ -174,19 +204,21 @@ class Shape:
         quick = tier == "quick"
         self.variant = variant or ("quick" if quick else "wide")
         self.files = ["py", "c", "iq", "hdr"] if self.variant == "wide" else ["py", "c", "iq"]
-        self.dtypes = ["double", "single"]
+        self.dtypes = ["double", "quad", "single"]       # quad = long double
         self.length = {"quick": 4, "wide": 5, "long": 6}[self.variant]
         nf = len(self.files)
         self.n_edit = 2 * nf
-        self.OP_DTYPE = self.n_edit
-        self.OP_LOAD = self.n_edit + 1
-        self.OP_NEWPROC = self.n_edit + 2
-        self.nops = self.n_edit + 3
+        self.OP_DTYPE = self.n_edit          # precision -> next of the list
+        self.OP_DTYPE2 = self.n_edit + 1     # precision -> the one after that
+        self.OP_LOAD = self.n_edit + 2
+        self.OP_NEWPROC = self.n_edit + 3
+        self.nops = self.n_edit + 4
 
     def opname(self, op):
         if op < self.n_edit:
             return "edit-%s+%d" % (self.files[op // 2], op % 2 + 1)
-        return {self.OP_DTYPE: "dtype", self.OP_LOAD: "load", self.OP_NEWPROC: "newproc"}[op]
+        return {self.OP_DTYPE: "dtype+1", self.OP_DTYPE2: "dtype+2", self.OP_LOAD: "load",
+                self.OP_NEWPROC: "newproc"}[op]
 
 
 def symbols(shape):
@@ -206,8 +238,9 @@ def symbols(shape):
     A.append(ops[0] != shape.OP_NEWPROC)
     for i in range(shape.length - 1):
         A.append(z3.Not(z3.And(ops[i] == shape.OP_NEWPROC, ops[i + 1] == shape.OP_NEWPROC)))
-        if len(shape.dtypes) == 2:
-            A.append(z3.Not(z3.And(ops[i] == shape.OP_DTYPE, ops[i + 1] == shape.OP_DTYPE)))
+        # two precision changes in a row are one (or none)
+        isd = lambda o: z3.Or(o == shape.OP_DTYPE, o == shape.OP_DTYPE2)
+        A.append(z3.Not(z3.And(isd(ops[i]), isd(ops[i + 1]))))
     return ops, ts, m0, A
 
 
@@ -256,7 +289,7 @@ class World:
     def load(self):
         files = self.shape.files
         dt = self.shape.dtypes[self.dtype_i]
-        want = np.dtype(dt)
+        want = NPDTYPE[dt]
         obs = {"want": dict(self.ver), "dtype": dt, "epoch": self.epoch, "exc": None,
                "compiles_before": self.vfs.compiles}
         del self.sources[:]
@@ -381,8 +414,8 @@ def unit(cfg):
                     # the edit stamps the file with the clock, later than its previous stamp
                     ex.assume(ts[i] > symx.term(w.stamp[f]), check=False)
                     w.edit(f, (w.ver[f] + op % 2 + 1) % NVER, Sym(ts[i]))
-                elif op == shape.OP_DTYPE:
-                    w.dtype_i = (w.dtype_i + 1) % len(shape.dtypes)
+                elif op in (shape.OP_DTYPE, shape.OP_DTYPE2):
+                    w.dtype_i = (w.dtype_i + 1 + op - shape.OP_DTYPE) % len(shape.dtypes)
                 elif op == shape.OP_LOAD:
                     loads.append(w.load())
                 else:
@@ -517,7 +550,7 @@ for line in sys.stdin:
         import re
         with open(model.dllpath, "rb") as fh:
             blob = fh.read()
-        marks = sorted(set(m.decode() for m in re.findall(rb"VERIF_MARK_[A-Z]+_\d", blob)))
+        marks = sorted(set(m.decode() for m in re.findall(rb"VERIF_MARK_[A-Z]+_\d+", blob)))
         out = {"ok": True, "value": [float(v) for v in val], "dll": model.dllpath,
                "dtype": str(model.dtype), "pid": os.getpid(), "marks": marks}
     except BaseException as e:
@@ -535,7 +568,7 @@ class RealHistory:
                         ignore=shutil.ignore_patterns("__pycache__", "*.pyc"))
         self.pkg = pkg
         self.pool = Pool(os.path.join(pkg, "sasmodels"), os.path.join(self.root, "plugins"))
-        os.makedirs(os.path.join(self.root, "plugins"))
+        os.makedirs(os.path.dirname(self.pool.paths["c"]))
         self.dll = os.path.join(self.root, "cache", "compiled_models")
         with open(os.path.join(self.root, "worker.py"), "w") as f:
             f.write(WORKER)
@@ -601,14 +634,14 @@ def real_history(inputs):
         w.start()
         loads, violated, notes = [], set(), []
         seen_path, earlier = {}, {}
-        for i, op in enumerate(inputs["ops"]):
-            if op < shape_nedit:
+        for i, (op, opname) in enumerate(zip(inputs["ops"], inputs["history"])):
+            if opname.startswith("edit-"):
                 f = files[op // 2]
                 ver[f] = (ver[f] + op % 2 + 1) % NVER
                 w.write(f, ver[f], secs["t%d" % i])
-            elif op == shape_nedit:
-                dtype_i = (dtype_i + 1) % len(dtypes)
-            elif op == shape_nedit + 2:
+            elif opname.startswith("dtype+"):
+                dtype_i = (dtype_i + int(opname[6:])) % len(dtypes)
+            elif opname == "newproc":
                 w.start()
             else:
                 dt = dtypes[dtype_i]
@@ -634,11 +667,11 @@ def real_history(inputs):
                     continue
                 text = " ".join(o.get("marks", []))
                 got = markers(text, files)
-                fs = re.findall(r"VERIF_MARK_FS_(\d)", text)
+                fs = re.findall(r"VERIF_MARK_FS_(\d+)", text)
                 stale_marks = [f for f in files if got[f] != [ver[f]]]
                 stale = not np.allclose(o["value"], want, rtol=1e-6)
-                wrong_dtype = (np.dtype(o["dtype"]) != np.dtype(dt)
-                               or fs != [str(np.dtype(dt).itemsize)])
+                wrong_dtype = (np.dtype(o["dtype"]) != NPDTYPE[dt]
+                               or fs != [str(NPDTYPE[dt].itemsize)])
                 if stale or wrong_dtype or stale_marks:
                     violated.add(LOAD_OBL)
                     o["stale_in_library"] = stale_marks
@@ -686,7 +719,8 @@ def validate(u, shape, pool, snap):
     real_dir = tempfile.mkdtemp(prefix="c17-val-", dir=vlib.scratch())
     try:
         rpool = Pool(generate.DATA_PATH, real_dir)
-        for combo, dt in (((0, 0), "double"), ((1, 2), "single"), ((2, 1), "double")):
+        os.makedirs(os.path.dirname(rpool.paths["c"]), exist_ok=True)
+        for combo, dt in (((0, 0), "double"), ((1, 2), "single"), ((2, 1), "quad")):
             restore_state(snap)
             for f, k in zip(("py", "c"), combo):
                 with open(rpool.paths[f], "w") as fh:
@@ -758,7 +792,7 @@ def _crc_run(state, bs):
 
 
 def _collision_c_text(lit):
-    return ("/* collision probe */\n#ifndef VERIF_TPL_K\n#define VERIF_TPL_K 0.0\n#endif\n"
+    return ("/* collision probe */\n#define VPLUG_HAVE_CFUN 1\n#ifndef VERIF_TPL_K\n#define VERIF_TPL_K 0.0\n#endif\n"
             "double vplug_cfun(double q);\n"
             "double vplug_cfun(double q) { return %s.0; }\n" % lit)
 
@@ -874,7 +908,7 @@ def configs(chk):
             if a == shape.OP_NEWPROC:
                 continue
             for b in range(shape.nops):
-                if (a, b) == (shape.OP_DTYPE, shape.OP_DTYPE):
+                if a in (shape.OP_DTYPE, shape.OP_DTYPE2) and b in (shape.OP_DTYPE, shape.OP_DTYPE2):
                     continue
                 out.append({"tier": chk.tier, "variant": variant, "prefix": (a, b), "validate": first})
                 first = False
